@@ -358,6 +358,8 @@ def run_query(q, tier, seed, prop_id):
             return r
         gb = build_query_gb(q, tui, qd)
         timeout = q.timeout or (120 if tier == 'quick' else 900)
+        if os.environ.get('VERIF_TIMEOUT_CAP'):
+            timeout = min(timeout, int(os.environ['VERIF_TIMEOUT_CAP']))
         mem = q.mem_gb or (8 if tier == 'quick' else 24)
         scale = 1; hunt = False
         for attempt in range(3):
